@@ -146,7 +146,7 @@ Definition range_answer (retry : bool) (rng : option (Z * Z)) (ir : if_range) (s
             match ir with
             | IRNone => false
             | IRTag t => negb (str_eqb t (st_etag st))
-            | IRTime t => t <? st_lastmod st
+            | IRTime t => negb (t =? st_lastmod st)   (* a date matches only the stored Last-Modified itself (fix ea09bf8; was: not older) *)
             end in
           if mismatch then Full 200 else Partial a b (b - a + 1)
       end
